@@ -41,4 +41,7 @@ let () =
   register "c20_convert" (function [f; g; d] -> of_result (fun b -> VB b) (Model.c20_convert udec (pyval f) (pyval g) (vb d)) | _ -> raise (Bad "arity"));
   register "c20_io_formats" (function [ht; sub; c; ft; fj; fi; fo] ->
       of_result (fun b -> VBool b) (Model.c20_io_formats (vbool ht) (vb sub) (cli c) (optdict ft) (optdict fj) (pyval fi) (pyval fo))
+    | _ -> raise (Bad "arity"));
+  register "c20_option_is" (function [ht; sub; c; ft; fj; o; v] ->
+      of_result (fun b -> VBool b) (Model.c20_option_is (vbool ht) (vb sub) (cli c) (optdict ft) (optdict fj) (vb o) (pyval v))
     | _ -> raise (Bad "arity"))
